@@ -43,7 +43,7 @@ def _augment_impl(g: typing.Union[GraphAware, OntologyGraph],
     if not (isinstance(g, GraphAware) or isinstance(g, OntologyGraph)):
         raise ValueError(f'hpo must be instance of GraphAware or an OntologyGraph but was {type(g)}')
     if isinstance(source, TermId):
-        return get_ancestors(g, source, include_source)
+        return func(g, source, include_source)
     elif isinstance(source, typing.Collection):
         augmented_term_ids = set()
         for term_id in source:
